@@ -6,6 +6,34 @@ use syn::Attribute;
 #[derive(Debug)]
 pub struct ValidatorParser;
 
+/// Position of the `)` that closes a parenthesis opened just before `s`; parentheses inside
+/// string literals (e.g. in `message = "(optional)"`) and nested parentheses are skipped
+fn find_closing_paren(s: &str) -> Option<usize> {
+    let mut depth = 0usize;
+    let mut in_string = false;
+    let mut escaped = false;
+    for (i, ch) in s.char_indices() {
+        if in_string {
+            if escaped {
+                escaped = false;
+            } else if ch == '\\' {
+                escaped = true;
+            } else if ch == '"' {
+                in_string = false;
+            }
+            continue;
+        }
+        match ch {
+            '"' => in_string = true,
+            '(' => depth += 1,
+            ')' if depth == 0 => return Some(i),
+            ')' => depth -= 1,
+            _ => {}
+        }
+    }
+    None
+}
+
 impl ValidatorParser {
     pub fn new() -> Self {
         Self
@@ -74,8 +102,9 @@ impl ValidatorParser {
         // Simple regex-like parsing for length(min = X, max = Y, message = "...")
         if let Some(start) = tokens.find("length") {
             if let Some(paren_start) = tokens[start..].find('(') {
-                if let Some(paren_end) = tokens[start + paren_start..].find(')') {
-                    let content = &tokens[start + paren_start + 1..start + paren_start + paren_end];
+                let after_paren = &tokens[start + paren_start + 1..];
+                if let Some(paren_end) = find_closing_paren(after_paren) {
+                    let content = &after_paren[..paren_end];
 
                     // Parse min = value
                     if let Some(min_pos) = content.find("min") {
@@ -137,8 +166,9 @@ impl ValidatorParser {
         // Simple regex-like parsing for range(min = X, max = Y, message = "...")
         if let Some(start) = tokens.find("range") {
             if let Some(paren_start) = tokens[start..].find('(') {
-                if let Some(paren_end) = tokens[start + paren_start..].find(')') {
-                    let content = &tokens[start + paren_start + 1..start + paren_start + paren_end];
+                let after_paren = &tokens[start + paren_start + 1..];
+                if let Some(paren_end) = find_closing_paren(after_paren) {
+                    let content = &after_paren[..paren_end];
 
                     // Parse min = value
                     if let Some(min_pos) = content.find("min") {
